@@ -3,7 +3,7 @@
 From Coq Require Import String List NArith Bool.
 From J5V.lib Require Import Outcome Strcase.
 From J5V.model Require Import J5sAst Desc J5sWalk J5sLink J5sConvert J5sContract J5sValid J5sEdit J5sCorr.
-From J5V.proofs Require Import J5sProofs J5sContractProofs J5sEditProofs J5sExtProofs J5sExtBoolProofs J5sPkgExtProofs J5sC13Proofs J5sWitnessProofs.
+From J5V.proofs Require Import J5sProofs J5sContractProofs J5sEditProofs J5sExtProofs J5sExtBoolProofs J5sPkgExtProofs J5sC13Proofs J5sFullProofs J5sWitnessProofs.
 Import ListNotations.
 Local Open Scope N_scope.
 
@@ -38,33 +38,35 @@ Theorem C13_append_option_prefix : forall screaming name nm pfx opts o,
 Proof. intros screaming. exact (cv_enum_snoc screaming screaming screaming). Qed.
 Print Assumptions C13_append_option_prefix.
 
-(* ... and the only append of one option that does not keep every earlier value: an enum WITHOUT
-   options receiving an option that ends in UNSPECIFIED under a name of its own (that option is
-   then the first one, and a first option ending in UNSPECIFIED is taken as the zero value).
-   Exactness of the class of the recorded finding: `option UNSPECIFIED` / `<PREFIX>UNSPECIFIED`
-   (the implicit zero value spelled out) and every other option are harmless. *)
-Theorem C13_append_option_exact : forall screaming name nm pfx opts o,
-  enum_ext (cv_enum screaming name (mkEnum nm pfx opts)) (cv_enum screaming name (mkEnum nm pfx (opts ++ [o]))) <->
-  (opts <> [] \/ unspec o = false \/
-   value_name (enum_prefix screaming name pfx) o = enum_prefix screaming name pfx ++ unspecified).
-Proof. intros screaming. exact (cv_enum_snoc_exact screaming screaming screaming). Qed.
-Print Assumptions C13_append_option_exact.
+(* ... and for EVERY enum and every option name the earlier values are kept (name, number): also
+   for an enum without options, where the appended option becomes the first one - value 0 stays
+   <PREFIX>UNSPECIFIED (fix a65e1f2; before it an option ending in UNSPECIFIED appended to an enum
+   without options became the zero value: C13_fixed_append_to_empty_enum) *)
+Theorem C13_append_option_always : forall screaming name nm pfx opts o,
+  enum_ext (cv_enum screaming name (mkEnum nm pfx opts)) (cv_enum screaming name (mkEnum nm pfx (opts ++ [o]))).
+Proof. intros screaming. exact (cv_enum_snoc_always screaming screaming screaming). Qed.
+Print Assumptions C13_append_option_always.
+
+(* value 0 of an enum does not depend on its options at all *)
+Theorem C13_zero_value_fixed : forall screaming name e,
+  nth_error (en_vals (cv_enum screaming name e)) 0 =
+  Some (enum_prefix screaming name (e_prefix e) ++ unspecified, 0).
+Proof. intros screaming. exact (cv_enum_zero screaming). Qed.
+Print Assumptions C13_zero_value_fixed.
 
 (* an append at any address inside a declaration - following inline types (through array and
    map items) and nested declarations to any depth; the action is a field at the end of the
    message reached, an option at the end of the enum reached, or a nested declaration at the end
-   of the message reached - extends the message in the sense of J5sEdit.props_ext / nesteds_ext,
-   unless it is the one excluded edit (J5sEdit.at_ok: not an option ending in UNSPECIFIED at the
-   end of an enum without options, wherever the enum sits).  apply_at applies every edit
-   faithfully, the excluded one included. *)
-Theorem C13_append_anywhere_extends : forall a path ps subs, at_ok path a ps subs ->
+   of the message reached - extends the message in the sense of J5sEdit.props_ext / nesteds_ext.
+   No address and no action is excluded. *)
+Theorem C13_append_anywhere_extends : forall a path ps subs,
   props_ext ps (fst (apply_at path a ps subs)) /\ nesteds_ext subs (snd (apply_at path a ps subs)).
 Proof. exact apply_at_ext. Qed.
 Print Assumptions C13_append_anywhere_extends.
 
 (* every append edit, and every sequence of append edits (induction over the edit list:
    fold_left), extends the source file in the sense of J5sEdit.file_src_ext *)
-Theorem C13_edit_sequence_extends : forall es f, edits_ok es f ->
+Theorem C13_edit_sequence_extends : forall es f,
   file_src_ext f (fold_left (fun g e => edit_file e g) es f).
 Proof. exact edit_sequence_ext. Qed.
 Print Assumptions C13_edit_sequence_extends.
@@ -76,14 +78,13 @@ Print Assumptions C13_edit_sequence_extends.
    optionality, type name), nested message, enum value (name, number), service and method is
    unchanged: the old descriptors embed into the new ones (files_ext) *)
 Theorem C13_append_edits_preserve : forall snake camel screaming exports exports' f es D D',
-  edits_ok es f ->
   (forall im, env_le (mkEnv (j5s_pkg f) im exports) (mkEnv (j5s_pkg f) im exports')) ->
   cv_file snake camel screaming exports f = Ok D ->
   cv_file snake camel screaming exports' (fold_left (fun g e => edit_file e g) es f) = Ok D' ->
   files_ext D D'.
 Proof.
-  intros snake camel screaming exports exports' f es D D' Hok Hle H H'.
-  exact (cv_file_ext snake camel screaming exports exports' f _ D D' (edit_sequence_ext es f Hok) Hle H H').
+  intros snake camel screaming exports exports' f es D D' Hle H H'.
+  exact (cv_file_ext snake camel screaming exports exports' f _ D D' (edit_sequence_ext es f) Hle H H').
 Qed.
 Print Assumptions C13_append_edits_preserve.
 
@@ -120,7 +121,7 @@ Qed.
 Print Assumptions C13_package_append_preserves.
 
 (* the property at full strength, on the linked descriptors (what CompilePackage returns): for
-   every valid bundle whose files lie in package directories, every package of it and every
+   every valid bundle (validity includes: every file lies in a package directory), every package of it and every
    sequence of append edits (fold_left over the list: apply_edits; an edit appends a field, an
    option or a nested declaration anywhere inside a declaration - J5sEdit.EAppendIn and its
    top-level special cases - or a declaration to a file) each of which addresses a source file,
@@ -132,20 +133,25 @@ Print Assumptions C13_package_append_preserves.
    per-file embedding, the growth of the environment, the package-level file list and the fact
    that qualifying type names commutes with the embedding. *)
 Definition C13_full_statement : Prop :=
-  forall es bd pkg D,
-    valid bd = true -> (forall x, In x bd -> bfile_pkg x <> []) -> seq_ok bd es ->
-    (exists x, In x bd /\ bfile_pkg x = pkg) ->
-    compile bd pkg = Ok D ->
-    exists D', compile (apply_edits bd es) pkg = Ok D' /\ files_ext D D'.
+  forall es bd pkg,
+    valid bd = true -> seq_ok bd es -> (exists x, In x bd /\ bfile_pkg x = pkg) ->
+    exists D D', compile bd pkg = Ok D /\ compile (apply_edits bd es) pkg = Ok D' /\ files_ext D D'.
 
-(* partial in exactly one class: seq_ok (edit_ok / J5sEdit.enum_append_ok) excludes an option
-   ending in UNSPECIFIED appended to an enum WITHOUT options; every other append - also of
-   options to enums without options - is covered.  For the excluded class see
-   C13_append_to_empty_enum_refuted; that nothing else about enums is excluded:
-   C13_append_option_exact, C13_empty_enum_other_options_preserve *)
+(* seq_ok: every edit addresses a source file of the bundle and leaves the bundle valid; no class
+   of append edits is excluded (before fix a65e1f2: an option ending in UNSPECIFIED appended to an
+   enum without options) *)
 Theorem C13_full : C13_full_statement.
-Proof. exact c13_full. Qed.
+Proof. exact c13_full_valid. Qed.
 Print Assumptions C13_full.
+
+(* the same, naming the old output (the form with the redundant premises the induction uses) *)
+Theorem C13_full_for_output : forall es bd pkg D,
+  valid bd = true -> (forall x, In x bd -> bfile_pkg x <> []) -> seq_ok bd es ->
+  (exists x, In x bd /\ bfile_pkg x = pkg) ->
+  compile bd pkg = Ok D ->
+  exists D', compile (apply_edits bd es) pkg = Ok D' /\ files_ext D D'.
+Proof. exact c13_full. Qed.
+Print Assumptions C13_full_for_output.
 
 (* the boolean test the correspondence evaluates on the REAL descriptors before and after every
    generated edit list (J5sCorr.c13_check) is sound for the embedding relation of C13_full *)
@@ -163,50 +169,46 @@ Theorem C13_deep_edits_preserve :
 Proof. exact deep_edits_preserve. Qed.
 Print Assumptions C13_deep_edits_preserve.
 
-(* non-vacuity of C13_full on enums without options: `enum Status {}` + `option ACTIVE` +
-   `option OLD_UNSPECIFIED` (the latter now appended to an enum that has options) is a sequence
-   of applicable edits; STATUS_UNSPECIFIED = 0 stays, ACTIVE = 1, OLD_UNSPECIFIED = 2 *)
-Theorem C13_empty_enum_other_options_preserve :
+(* C13_full on enums without options (regression, fix a65e1f2): `enum Status {}` +
+   `option OLD_UNSPECIFIED` + `option ACTIVE` is a sequence of edits of C13_full;
+   STATUS_UNSPECIFIED = 0 stays, OLD_UNSPECIFIED = 1, ACTIVE = 2 *)
+Theorem C13_empty_enum_any_option_preserves :
   seq_ok w_empty_enum w_empty_enum_ok_edits /\
   exists D D', compile w_empty_enum (b "foo.v1") = Ok D /\
                compile (apply_edits w_empty_enum w_empty_enum_ok_edits) (b "foo.v1") = Ok D' /\
                files_ext D D' /\
                zero_value D' = Some (b "STATUS_UNSPECIFIED", 0) /\
                map en_vals (flat_map fl_enums D') =
-                 [[(b "STATUS_UNSPECIFIED", 0); (b "STATUS_ACTIVE", 1); (b "STATUS_OLD_UNSPECIFIED", 2)]].
-Proof. exact empty_enum_other_option_preserves. Qed.
-Print Assumptions C13_empty_enum_other_options_preserve.
+                 [[(b "STATUS_UNSPECIFIED", 0); (b "STATUS_OLD_UNSPECIFIED", 1); (b "STATUS_ACTIVE", 2)]].
+Proof. exact empty_enum_any_option_preserves. Qed.
+Print Assumptions C13_empty_enum_any_option_preserves.
 
-(* REFUTED for enums without options (known finding, replayed on the real compiler in every run):
-   `enum Status {}` compiles to STATUS_UNSPECIFIED = 0; after appending the option OLD_UNSPECIFIED
-   - which is then the first option, and a first option ending in UNSPECIFIED is the zero value -
-   value 0 is called STATUS_OLD_UNSPECIFIED.  Both versions are valid and compile; the previously
-   generated enum value changed its name.  C13_full excludes exactly this case through seq_ok
-   (enum_append_ok: not an option ending in UNSPECIFIED to an enum without options). *)
-Theorem C13_append_to_empty_enum_refuted :
+(* regression (defect repaired by a65e1f2; until then the recorded finding of this property):
+   `enum Status {}` compiles to STATUS_UNSPECIFIED = 0; the appended option OLD_UNSPECIFIED - the
+   first option then, and any first option ending in UNSPECIFIED used to be taken as the zero
+   value, renaming value 0 to STATUS_OLD_UNSPECIFIED - is option number 1 and the old descriptors
+   embed *)
+Theorem C13_fixed_append_to_empty_enum :
   valid w_empty_enum = true /\ valid (apply_edits w_empty_enum w_empty_enum_edit) = true /\
   exists D D', compile w_empty_enum (b "foo.v1") = Ok D /\
                compile (apply_edits w_empty_enum w_empty_enum_edit) (b "foo.v1") = Ok D' /\
                zero_value D = Some (b "STATUS_UNSPECIFIED", 0) /\
-               zero_value D' = Some (b "STATUS_OLD_UNSPECIFIED", 0) /\
-               files_ext_b D D' = false.
-Proof. exact append_to_empty_enum_renames_zero. Qed.
-Print Assumptions C13_append_to_empty_enum_refuted.
+               map en_vals (flat_map fl_enums D') = [[(b "STATUS_UNSPECIFIED", 0); (b "STATUS_OLD_UNSPECIFIED", 1)]] /\
+               files_ext_b D D' = true.
+Proof. exact append_to_empty_enum_keeps_zero. Qed.
+Print Assumptions C13_fixed_append_to_empty_enum.
 
-(* the same finding at depth (an enum without options nested in an object, the option appended
-   through an address: EAppendIn): the edit is applied as it is, both versions are valid and
-   compile, STATUS_UNSPECIFIED = 0 becomes STATUS_OLD_UNSPECIFIED = 0, the old descriptors do not
-   embed - and the edit is excluded from C13_full (edit_ok fails), wherever the enum sits *)
-Theorem C13_append_to_empty_nested_enum_refuted :
+(* the same at depth (an enum without options nested in an object, the option appended through
+   an address: EAppendIn) *)
+Theorem C13_fixed_append_to_empty_nested_enum :
   valid w_empty_nested_enum = true /\ valid (apply_edits w_empty_nested_enum [w_empty_nested_enum_edit]) = true /\
   (exists D D', compile w_empty_nested_enum (b "foo.v1") = Ok D /\
                 compile (apply_edits w_empty_nested_enum [w_empty_nested_enum_edit]) (b "foo.v1") = Ok D' /\
                 nested_enum_vals D = [[(b "STATUS_UNSPECIFIED", 0)]] /\
-                nested_enum_vals D' = [[(b "STATUS_OLD_UNSPECIFIED", 0)]] /\
-                files_ext_b D D' = false) /\
-  (forall j, nth_error w_empty_nested_enum 0 = Some (BJ j) -> ~ edit_ok w_empty_nested_enum_edit j).
-Proof. exact append_to_empty_nested_enum_renames_zero. Qed.
-Print Assumptions C13_append_to_empty_nested_enum_refuted.
+                nested_enum_vals D' = [[(b "STATUS_UNSPECIFIED", 0); (b "STATUS_OLD_UNSPECIFIED", 1)]] /\
+                files_ext_b D D' = true).
+Proof. exact append_to_empty_nested_enum_keeps_zero. Qed.
+Print Assumptions C13_fixed_append_to_empty_nested_enum.
 
 (* regression example (defect repaired by 2ef7c92): `object Foo { field x object {} }` and the same
    with `field foo object {}` appended both compile, and the existing field x keeps its type *)
